@@ -26,9 +26,9 @@ ASSUMPTIONS = ["chain ends and input residue names are the generator's ground tr
                "the .names rules are the ones documented in docs/source/formats/xml-names.rst as implemented by "
                "vf.ref.ffmap (regex on canonical names with $ appended, $group, cumulative sections, atom aliases)"]
 MIN = {"quick": {"table_entries": 17000, "lookup_events": 20000, "atoms_checked": 20000, "user_ff_runs": 10,
-                 "runs_ok": 150},
+                 "runs_ok": 150, "names_history_tables": 25, "pka_route_runs": 10},
        "thorough": {"table_entries": 100000, "lookup_events": 800000, "atoms_checked": 800000, "user_ff_runs": 200,
-                    "runs_ok": 5000}}
+                    "runs_ok": 5000, "names_history_tables": 1500, "pka_route_runs": 500}}
 
 EVENTS = []
 STATE = {"installed": False}
